@@ -157,6 +157,9 @@ def run_threads(case, stats):
         steps.append(mine)
     cap = rng.choice([1, 7, 24, 100, 1000])
     strat = sched.RandomWalk(case["seed"], stay=rng.choice([0.2, 0.5, 0.8]), line_prob=0.0) if rng.random() < 0.7 else sched.PCT(case["seed"], len(steps), depth=rng.choice([1, 2, 3]), horizon=300, line_prob=0.0)
+    if int(str(case["seed"]).split(":th")[-1]) % 8 == 5:
+        strat = sched.LazyActor(case["seed"], 0, p=0.03, stay=0.5)       # one actor frozen for long stretches (e.g. in the middle of a short-written message)
+        strat.armed = True
     res = c06.run_schedule(case["impl"], steps, strat, line=False, core_kw={"writecap": cap, "budget": 20000})
     viol = []
     for v in res["viol"]:
